@@ -4,12 +4,31 @@ import json, sys, subprocess
 from pathlib import Path
 props = {json.loads(l)["id"]: json.loads(l) for l in open("/verif/properties.jsonl")}
 T = open("/verif/tools/seedprompt.txt").read()
+ROUND2 = """
+
+FOCUS FOR THIS ROUND (other people already produced the obvious one-line regressions for this property; do something of a different kind):
+ * change 1: %s
+ * change 2: %s
+If one of the two focus kinds is genuinely impossible for this property, say so in the notes and deliver another subtle change instead.
+"""
+FOCI = {
+    "A": "two cooperating edits at different sites (different functions, ideally different files) which each look harmless and are harmless alone, but together break the property",
+    "B": "a change whose effect depends on timing or order: it only shows when a timer expires, a PDU arrives, a cancel/put request is issued or get_next_packet is (not) called at one particular point of the transaction",
+    "C": "a data-structure / aliasing / caching problem (shared mutable default, object kept by reference and modified later, value cached across transactions or across handler instances, stale flag) or a change in one of the less obvious modules (mib.py, handler/common.py, handler/defs.py, filestore.py, crc.py, user.py, request.py)",
+    "D": "a boundary-value problem that needs an unusual but legal configuration or input (entity-id or sequence-number width, CRC flag, checksum type, file size relative to segment length or packet length, limit of 1, zero-length or maximum-length field, large-file flag)",
+}
 for pid in sys.argv[1:]:
     name = pid
+    foci = None
+    if ":" in pid:
+        pid, f = pid.split(":")
+        name = pid
+        foci = (FOCI[f[0]], FOCI[f[1]])
     pid = pid.split("-")[0]
     p = props[pid]
     wt, out = f"/tmp/seed-{name}", f"/tmp/seed-{name}-out"
     subprocess.run(["git", "-C", "/repo", "worktree", "add", "--detach", wt, "HEAD", "-q"], check=False)
     Path(out).mkdir(exist_ok=True)
-    Path(out, "TASK.md").write_text(T.format(wt=wt, out=out, pid=pid, title=p["title"], statement=p["statement"], quant=p["quantifier"]["text"], anchors=json.dumps(p["anchors"])))
+    extra = ROUND2 % foci if foci else ""
+    Path(out, "TASK.md").write_text(extra.join(T.split("Read the code first", 1)[:1]) .format(wt=wt, out=out, pid=pid, title=p["title"], statement=p["statement"], quant=p["quantifier"]["text"], anchors=json.dumps(p["anchors"])) + "" if False else (T.replace("Read the code first", extra.replace("{", "{{").replace("}", "}}") + "\nRead the code first", 1)).format(wt=wt, out=out, pid=pid, title=p["title"], statement=p["statement"], quant=p["quantifier"]["text"], anchors=json.dumps(p["anchors"])))
     print(name, "ready")
